@@ -187,6 +187,12 @@ func NewBlockChain(ctx context.Context, db aquadb.Database, cacheConfig *CacheCo
 	if bc.genesisBlock == nil {
 		return nil, ErrNoGenesis
 	}
+	// Store typed nil heads so that CurrentBlock/CurrentFastBlock are safe to
+	// call while the last state is being loaded (or reset after a crash).
+	var nilBlock *types.Block
+	bc.currentBlock.Store(nilBlock)
+	bc.currentFastBlock.Store(nilBlock)
+
 	if err := bc.loadLastState(); err != nil {
 		return nil, err
 	}
